@@ -97,7 +97,7 @@ PROPS = {
                   "C13_other_entity_lookup", "C13_membership_unchanged", "C13_any_storage_kind",
                   "C13_writes_only_the_chosen_items", "C13_read_only_views_change_nothing",
                   "C13_join_refines_the_join_on_maps", "C13_event_only_for_items_fetched_mutably",
-                  "C13_reading_emits_nothing"],
+                  "C13_reading_emits_nothing", "C13_events_of_a_whole_join"],
         required="spec",
         nontrivial="history contains a join over a restricted storage with at least one item and one other-entity lookup",
     ),
@@ -155,7 +155,7 @@ PROPS = {
         domain="world", module="Props.C12",
         theorems=["C12_events_replay_membership", "C12_replay_composes", "C12_insert_reports",
                   "C12_entity_deletion_reports", "C12_modified_exactly_on_mutable_access", "C12_read_only_is_silent",
-                  "C12_events_of_join_accesses"],
+                  "C12_events_of_join_accesses", "C12_a_join_reports_exactly_its_mutable_accesses_and_removals"],
         required="spec",
         nontrivial="a reader reads at least one insertion, one removal and one modification event",
     ),
